@@ -2026,8 +2026,10 @@ handle_raw_login(char *packet, int len, struct query *q, int fd, int userid)
 			len, userid);
 	}
 
-	/* User sends hash of seed + 1 */
-	login_calculate(myhash, 16, password, users[userid].seed + 1);
+	/* User sends hash of seed + 1. The seed is any value rand() returns,
+	   RAND_MAX included: add in unsigned arithmetic */
+	login_calculate(myhash, 16, password,
+			(int) ((unsigned int) users[userid].seed + 1u));
 	if (memcmp(packet, myhash, 16) == 0) {
 		/* Update query and time info for user */
 		users[userid].last_pkt = time(NULL);
@@ -2039,7 +2041,8 @@ handle_raw_login(char *packet, int len, struct query *q, int fd, int userid)
 
 		/* Correct hash, reply with hash of seed - 1 */
 		user_set_conn_type(userid, CONN_RAW_UDP);
-		login_calculate(myhash, 16, password, users[userid].seed - 1);
+		login_calculate(myhash, 16, password,
+				(int) ((unsigned int) users[userid].seed - 1u));
 		send_raw(fd, myhash, 16, userid, RAW_HDR_CMD_LOGIN, q);
 
 		users[userid].authenticated_raw = 1;
